@@ -26,6 +26,8 @@ func init() {
 
 type c08World struct {
 	*imp.World
+	placeholder *jen.Statement // an empty statement inside a List inside a call, filled later
+	phFilled    bool
 	frags       []*jen.Statement
 	fragPath    []string
 	observed    map[string]string // path -> qualifier ("" = bare) seen in any earlier output
@@ -78,7 +80,15 @@ func showQual(q string) string {
 // fileRender renders the File, checks the output against everything observed before and records
 // what it shows. It returns the outcome key for repeatability comparison.
 func (w *c08World) fileRender(where string) string {
-	o := w.Render()
+	return w.fileOutput(where, w.Render())
+}
+
+// fileGoString is fileRender through File.GoString (what %#v prints).
+func (w *c08World) fileGoString(where string) string {
+	return w.fileOutput(where, jh.Catch(func() (string, error) { return w.F.GoString(), nil }))
+}
+
+func (w *c08World) fileOutput(where string, o jh.Outcome) string {
 	w.nRenders++
 	if !o.OK() {
 		w.problems = append(w.problems, where+": render failed: "+shortErr(o.String()))
@@ -98,8 +108,15 @@ func (w *c08World) fileRender(where string) string {
 	for _, r := range w.Refs {
 		symPath[r.Sym] = r.Path
 	}
+	used := map[string]bool{}
 	for _, u := range a.Uses {
 		w.observe(symPath[u.Sym], u.Qual, where)
+		used[u.Sym] = true
+	}
+	for _, r := range w.Refs {
+		if r.Rendered && !used[r.Sym] {
+			w.problems = append(w.problems, fmt.Sprintf("%s: the reference %s to %q (%s) is missing from the output", where, r.Sym, r.Path, r.Wrapper))
+		}
 	}
 	// every path observed so far must be declared by the import block under that name
 	specs := map[string]imp.Spec{}
@@ -188,6 +205,32 @@ var c08Ops = func() []c08Op {
 		w.fileRender(fmt.Sprintf("File.Render #%d", w.nRenders+1))
 		return true
 	})
+	add("File.GoString", func(w *c08World) bool {
+		w.Log = append(w.Log, "File.GoString")
+		w.fileGoString(fmt.Sprintf("File.GoString #%d", w.nRenders+1))
+		return true
+	})
+	// a list whose only item is a still empty statement the caller keeps, filled in later
+	add("AddListOfPlaceholder", func(w *c08World) bool {
+		if w.placeholder != nil {
+			return false
+		}
+		w.placeholder = &jen.Statement{}
+		w.F.Var().Id("_").Op("=").Id("Zid").Call(jen.List(w.placeholder))
+		w.Log = append(w.Log, "var _ = Zid(List(placeholder))")
+		return true
+	})
+	add("FillPlaceholder(b/f)", func(w *c08World) bool {
+		if w.placeholder == nil || w.phFilled {
+			return false
+		}
+		w.phFilled = true
+		n := len(w.Refs)
+		w.Refs = append(w.Refs, imp.Ref{Path: "b/f", Sym: fmt.Sprintf("R%d", n), Wrapper: "placeholder", Rendered: true})
+		w.placeholder.Qual("b/f", fmt.Sprintf("R%d", n))
+		w.Log = append(w.Log, "placeholder.Qual(b/f)")
+		return true
+	})
 	for i := 0; i < 4; i++ {
 		i := i
 		add(fmt.Sprintf("Fragment%d.RenderWithFile", i), func(w *c08World) bool {
@@ -271,7 +314,7 @@ func (w *c08World) key() string {
 	}
 	sort.Strings(ps)
 	sb.WriteString(strings.Join(ps, ","))
-	fmt.Fprintf(&sb, "|problems=%d", len(w.problems))
+	fmt.Fprintf(&sb, "|problems=%d|ph=%v", len(w.problems), w.phFilled)
 	return sb.String()
 }
 
